@@ -560,6 +560,7 @@ theorem step_call_cases (H : Heap) (k : Nat) (m : Str) (args : Args) :
     · exact Or.inl ⟨_, rfl⟩
     · split
       · exact Or.inl ⟨_, rfl⟩
+      · exact Or.inl ⟨_, rfl⟩
       · split
         · exact Or.inr ⟨_, _, rfl⟩
         · exact Or.inl ⟨_, rfl⟩
